@@ -737,6 +737,7 @@ func (ar *asyncRunner) start(nArgs int) {
 	ar.promiseCap = r.newPromiseCapability(r.getPromise())
 	sp := r.vm.sp
 	ar.gen.enter()
+	defer ar.gen.leaveOnPanic()
 	ar.vmCall(r.vm, nArgs)
 	res, resType, ex := ar.gen.step()
 	ar.step(res, resType == resultNormal, ex)
@@ -873,8 +874,20 @@ func (g *generator) enterNext() {
 	g.vm.resume(&g.ctx)
 }
 
+// leaveOnPanic must be deferred right after enter() or enterNext(). When an uncatchable error (interrupt, stack
+// overflow, Go panic) propagates through, vm.handleThrow has unwound to the marker frame; remove that frame and
+// the saved context, as the normal path does, before propagating further.
+func (g *generator) leaveOnPanic() {
+	if x := recover(); x != nil {
+		g.vm.popTryFrame()
+		g.vm.popCtx()
+		panic(x)
+	}
+}
+
 func (g *generator) next(v Value) (Value, resultType, *Exception) {
 	g.enterNext()
+	defer g.leaveOnPanic()
 	if v != nil {
 		g.vm.push(v)
 	}
@@ -886,6 +899,7 @@ func (g *generator) next(v Value) (Value, resultType, *Exception) {
 
 func (g *generator) nextThrow(v interface{}) (Value, resultType, *Exception) {
 	g.enterNext()
+	defer g.leaveOnPanic()
 	ex := g.vm.handleThrow(v)
 	if ex != nil && (g.vm.prg != nil || g.vm.pc != -2) {
 		// Stopped at the frame of a finally block that was entered by return() (see enterNextFinallyFrame),
@@ -912,14 +926,15 @@ func (g *generatorObject) init(vmCall func(*vm, int), nArgs int) {
 	g.gen.vm = vm
 
 	g.gen.enter()
+	defer g.gen.leaveOnPanic()
 	vmCall(vm, nArgs)
 
 	_, _, ex := g.gen.step()
 
-	vm.popTryFrame()
 	if ex != nil {
 		panic(ex)
 	}
+	vm.popTryFrame()
 
 	g.state = genStateSuspendedStart
 	vm.popCtx()
